@@ -1,24 +1,39 @@
-pub mod c01;
-pub mod c02;
-pub mod c03;
-pub mod c04;
-pub mod c05;
-
 use serde_json::Value;
 
 use crate::Ctx;
 
-/// Dispatch a full run. Returns false for an unknown property id.
-pub fn run(ctx: &mut Ctx) -> bool {
-    match ctx.property.as_str() {
-        "C01" => c01::run(ctx),
-        "C02" => c02::run(ctx),
-        "C03" => c03::run(ctx),
-        "C04" => c04::run(ctx),
-        "C05" => c05::run(ctx),
-        _ => return false,
-    }
-    true
+macro_rules! properties {
+    ($($id:literal => $m:ident),* $(,)?) => {
+        $(pub mod $m;)*
+
+        /// Dispatch a full run. Returns false for an unknown property id.
+        pub fn run(ctx: &mut Ctx) -> bool {
+            match ctx.property.as_str() {
+                $($id => $m::run(ctx),)*
+                _ => return false,
+            }
+            true
+        }
+
+        fn replay_dispatch(ctx: &mut Ctx, sub: &str, case: &Value) -> bool {
+            match ctx.property.as_str() {
+                $($id => $m::replay(ctx, sub, case),)*
+                _ => return false,
+            }
+            true
+        }
+
+        pub const IDS: &[&str] = &[$($id),*];
+    };
+}
+
+properties! {
+    "C01" => c01,
+    "C02" => c02,
+    "C03" => c03,
+    "C04" => c04,
+    "C05" => c05,
+    "C10" => c10,
 }
 
 /// Replay one stored case (a replay/regression JSON written by `Ctx::finish`).
@@ -31,13 +46,5 @@ pub fn replay_file(ctx: &mut Ctx, path: &str) -> bool {
     };
     let sub = v["sub"].as_str().unwrap_or("").to_string();
     let case = v["case"].clone();
-    match ctx.property.as_str() {
-        "C01" => c01::replay(ctx, &sub, &case),
-        "C02" => c02::replay(ctx, &sub, &case),
-        "C03" => c03::replay(ctx, &sub, &case),
-        "C04" => c04::replay(ctx, &sub, &case),
-        "C05" => c05::replay(ctx, &sub, &case),
-        _ => return false,
-    }
-    true
+    replay_dispatch(ctx, &sub, &case)
 }
